@@ -9,13 +9,13 @@ PROP = dict(
                "and all schedules; induction with an invariant), three kernel-checked refutation witnesses for the "
                "known findings.  The verdict on the code is the extracted monitor on the complete byte stream of every "
                "connection (error paths, takeovers, wills, shutdown, small Maximum Packet Size, Request Problem "
-               "Information 0).  Partial: 'the encoder only emits reference-decodable bytes' is left to C26/C42.",
+               "Information 0).  C23_encoder_output (from Codec/CodecC23.v): every well-formed packet whose abstraction the standard allows is encoded to bytes the reference decoder reads back as exactly that packet.  Partial: that every packet the broker BUILDS has a valid abstraction is what the monitor checks per run.",
     level_note="Trusted: Coq kernel, extraction, OCaml driver, Go broker harness.  The reference codec SpecCodec.v was "
                "written from the OASIS texts independently of mochi's codec.  Modelled not verified: the lock "
                "(sync.RWMutex) as 'only the holder proceeds'; net.Conn.Write as atomic append.",
     engines=[dict(hx="wire")],
     theorems=["C23_monitor_sound", "C23_no_interleaving", "C23_refuted_v3_disconnect",
-              "C23_refuted_v3_connack_code", "C23_refuted_suback_0x82"],
+              "C23_refuted_v3_connack_code", "C23_refuted_suback_0x82", "C23_encoder_output"],
     model_files="coq/Session/Wellformed.v, coq/Conc/WriteMux.v, coq/Codec/SpecCodec.v",
     rule="120 (thorough 3000) histories x 40 (70) steps over 4 client ids with random versions 3/4/5 and CONNECT "
          "properties (Maximum Packet Size 20-80, Request Problem Information 0, Request Response Information, receive "
